@@ -1187,7 +1187,13 @@ fn determinism_check(id: &str, root: u64, n: u64) -> Result<(), String> {
     let b = run_batch(id, root, n, 600, 7, true, false, false);
     // A simulation that blocks for real ends its worker early (the finding is reported by the main batch): the digests
     // of the runs that were executed are still compared below.
-    let hung = a.merged.violations.iter().chain(b.merged.violations.iter()).any(|v| v.0.contains("|hang|"));
+    // (a simulation blocked for real -- a sequential `hang`, a wedged client -- ends its worker process early: fewer
+    // digests are not nondeterminism then; the main batch reports the hang itself)
+    let stuck = |r: &BatchResult| {
+        r.merged.violations.iter().any(|v| v.0.contains("|hang|") || v.0.contains("client_wedged_for_real"))
+            || r.merged.other_property.keys().any(|k| k.contains("client_wedged_for_real"))
+    };
+    let hung = stuck(&a) || stuck(&b);
     if !hung && ((a.merged.digests.len() as u64) < n || a.merged.digests.len() != b.merged.digests.len()) {
         return Err(format!("expected >= {n} digests, got {} and {}", a.merged.digests.len(), b.merged.digests.len()));
     }
@@ -1200,7 +1206,7 @@ fn determinism_check(id: &str, root: u64, n: u64) -> Result<(), String> {
     // with 3 workers almost all of them are later ones (this is the comparison that would have caught the first-run leak
     // described in DESIGN.md 8.5).
     let c = run_batch(id, root, n, 600, 32, true, false, false);
-    let hung = hung || c.merged.violations.iter().any(|v| v.0.contains("|hang|"));
+    let hung = hung || stuck(&c);
     for (i, d) in a.merged.digests.iter() {
         if c.merged.digests.get(i).map(|x| x != d).unwrap_or(!hung) {
             return Err(format!("run index {i}: event-log digest differs between an early and a late execution within a process"));
